@@ -137,7 +137,7 @@ class Ctx:
             if rule_id not in RULES:
                 raise AnalysisError(f'rule {rule_id} is not implemented')
             rep = RULES[rule_id](self)
-            if rep.counted() < rep.floor:
+            if rep.counted() < rep.floor and not rep.violations():
                 raise AnalysisError(
                     f'{rule_id}: only {rep.counted()} instance(s) found, floor is {rep.floor} '
                     f'(a rule matching too few sites would pass vacuously)')
